@@ -65,7 +65,7 @@ Proof.
         rewrite (skipn_nth_cons out' (k + j)) in Hrow by lia. cbn [mul_row] in Hrow.
         pose proof (carrying_mul_ok w (nth k a 0) (nth j b 0) carry' (nth (k + j) out' 0) Hw) as [Hp Hc'].
         destruct (carrying_mul w (nth k a 0) (nth j b 0) carry' (nth (k + j) out' 0)) as [p c1].
-        cbn [fst snd] in Hp, Hc'.
+        cbn [fst snd] in Hp, Hc' |- *.
         rewrite arr_set_nat by lia. cbn [bind].
         unfold mul_inner_inv.
         split; [lia|]. split; [lia|]. split; [reflexivity|]. split; [rewrite list_set_length; exact Hlen'|].
